@@ -1941,7 +1941,7 @@ def gen_ext_history(rng, i: int) -> dict:
     n = _prod(dims)
     nb = _nbytes(n, bw)
     pre = rng.choice([0, 0, 1, 3, 4096 + 5])
-    if pre > 100 and rng.random() < 0.7:
+    if pre > 100 and rng.random() < 0.8:
         pre = 2
 
     def content(kind=None):
@@ -2045,7 +2045,7 @@ def exec_ext_history(h: dict, wd: str) -> list:
                     rec["exc"] = raised
                     dst.close()
                 # the expected answer of the property, from the file on disk (independent of the model)
-                rec["curbytes"] = None if curfile is None else list(curfile)
+                rec["curbytes"] = curfile  # bytes (compact), None when there is no file
             elif kind == "release":
                 t.release()
                 rec["obs"] = "done"
